@@ -16,8 +16,10 @@
                (group / interleave: ∪;  choice: ∩;  optional / zeroOrMore: ∅;  oneOrMore p: p)
 
   References are followed through the define table with fuel; `fuelOk` is the companion check that
-  the fuel never runs out (theorem `fuel_sufficient` in Props/C06), so the functions compute the
-  denotation and not an approximation of it.  RELAX-NG forbids recursion that does not pass through
+  the fuel never runs out (theorem `fuel_sufficient` in Props/C06/Schema.lean), and where `fuelOk`
+  holds the answers are the same at every larger fuel (Props/C06/Fuel.lean,
+  `schema_semantics_fuel_independent`), so the functions compute the denotation and not an
+  approximation of it.  RELAX-NG forbids recursion that does not pass through
   an `element`, and all four functions stop at `element`, so a finite fuel always exists.
 
   Nothing here knows about odfpy.
@@ -90,6 +92,13 @@ def ncOk : Nat → NC → Bool
   | _+1, .name _ => true
   | _+1, .any => true
   | f+1, .choice l => l.all (ncOk f)
+
+/-- does the name class list this very name?  (`<anyName/>` does not *list* any name) -/
+def ncHas : Nat → NC → Nat → Bool
+  | 0, _, _ => false
+  | _+1, .name q, e => Nat.beq q e
+  | _+1, .any, _ => false
+  | f+1, .choice l, e => l.any fun n => ncHas f n e
 
 /-- fuel for name classes (nesting depth of `<choice>` inside a name class) -/
 def NCFUEL : Nat := 8
@@ -209,8 +218,15 @@ tracked changes, `style:style` …).  The API knows only the name, so: an item i
 some declaration permits it, and an attribute is *required* when every declaration requires it. -/
 
 /-- content patterns of the declarations of element `e` (declarations with `<anyName/>` excluded) -/
-def Schema.patterns (S : Schema) (e : Nat) : List P :=
-  S.elems.all.filterMap fun d => if (names d.nc).contains e then some d.content else none
+def patternsIn : List Decl → Nat → List P
+  | [], _ => []
+  | d :: ds, e => if ncHas NCFUEL d.nc e then d.content :: patternsIn ds e else patternsIn ds e
+
+def patternsInChunks : List (List Decl) → Nat → List P
+  | [], _ => []
+  | c :: cs, e => patternsIn c e ++ patternsInChunks cs e
+
+def Schema.patterns (S : Schema) (e : Nat) : List P := patternsInChunks S.elems.chunks e
 
 def Schema.isElem (S : Schema) (e : Nat) : Bool := !(S.patterns e).isEmpty
 def Schema.mayElems (S : Schema) (e : Nat) : List Nat := (S.patterns e).flatMap (Grammar.mayElems S FUEL)
